@@ -124,12 +124,10 @@ func (k Keeper) ReturnSlashedTokens(ctx context.Context, amt math.Int, hashId []
 		// if not, set to unbonded
 		// this causes the delegate method (in staking module) to not transfer tokens since tokens
 		// are transferred via dispute module where ReturnSlashedTokens is called
-		var tokenSrc stakingtypes.BondStatus
-		if val.IsBonded() {
-			tokenSrc = stakingtypes.Bonded
-		} else {
-			tokenSrc = stakingtypes.Unbonded
-		}
+		// the dispute module sends the returned tokens to the bonded pool, so the source is always
+		// the bonded pool: the staking module then moves them to the not-bonded pool itself when the
+		// validator is no longer bonded
+		tokenSrc := stakingtypes.Bonded
 		_, err = k.stakingKeeper.Delegate(ctx, delAddr, shareAmt.TruncateInt(), tokenSrc, val, false) // false means to not subtract tokens from an account
 		if err != nil {
 			return err
